@@ -109,7 +109,7 @@ PROP = dict(
          "(thorough) in consecutive cases, the model is run with the same T and the ids are compared exactly; the certified "
          "checker judges the implementation's ids whenever the total is below 2^46; distinct = distinct (dims, weights, "
          "weight type, iter_count, T); non-trivial = at least 4 cells, iter_count >= 1 and a non-zero total weight",
-    class_names={0: "Ok", 3: "panic", 4: "hang"},
+    class_names={0: "Ok (model compared)", 3: "panic", 4: "hang", 5: "Ok (arbitrary f64 fractions: checker only)"},
     trusted_base=[
         "axioms: C10_thresholds and C10_gridrcb_boxes_all use the axioms of Coq's classical real numbers through Flocq "
         "(ClassicalDedekindReals.sig_forall_dec, sig_not_dec, FunctionalExtensionality.functional_extensionality_dep, "
